@@ -66,10 +66,12 @@ def check_sat(formula, assumptions=(), timeout_s=60, want_model=True, use_cvc5=T
     if tactics is not None:
         tl = [t for t in tl if t[0] in tactics]
     per = max(1.0, timeout_s / max(1, len(tl)))
-    for name, mk in tl:
+    for ti, (name, mk) in enumerate(tl):
         try:
             s = mk().solver()
-            s.set("timeout", int(per * 1000))
+            # the first tactic of the order chosen for this kind of query gets most of the budget
+            budget = timeout_s * 0.7 if (ti == 0 and len(tl) > 1) else max(1.0, timeout_s * 0.3 / max(1, len(tl) - 1)) if len(tl) > 1 else timeout_s
+            s.set("timeout", int(budget * 1000))
             for a in assumptions:
                 s.add(a)
             s.add(formula)
